@@ -217,6 +217,18 @@ impl BigRat {
         }
     }
 
+    /// Writes the number as `numerator/denominator` (only the numerator
+    /// for integers), both as numerals of the given base.
+    pub fn to_fraction(&self, base: u8) -> String {
+        let num = self.numer();
+        let den = self.denom();
+        if den == BigInt::one() {
+            num.to_string_radix(base)
+        } else {
+            format!("{}/{}", num.to_string_radix(base), den.to_string_radix(base))
+        }
+    }
+
     pub fn to_scientific(&self, base: u8, digits: Digits) -> (bool, String) {
         let num = self.numer();
         let den = self.denom();
@@ -266,7 +278,7 @@ impl BigRat {
         }
 
         if digits == Digits::Fraction {
-            return (true, format!("{}", self));
+            return (true, self.to_fraction(base));
         }
 
         let abs = self.abs();
